@@ -286,7 +286,13 @@ impl TransformerContext {
     pub fn get_original_element(&self, elref: &ElRef) -> Option<&SvgElement> {
         match elref {
             ElRef::Id(id) => self.original_map.get(id),
-            ElRef::Prev => self.prev_element.as_ref(),
+            // the previous element is held as evaluated; where it has an id, its original
+            // (the template to instantiate, with variables not yet substituted) is known
+            ElRef::Prev => self.prev_element.as_ref().map(|prev| {
+                prev.get_attr("id")
+                    .and_then(|id| self.original_map.get(&id))
+                    .unwrap_or(prev)
+            }),
         }
     }
 
